@@ -3,6 +3,11 @@
 //! version; every (from,to) conversion pair; byte-level seeds with key frames; every skin and
 //! anim population tuple.  Oracles: independent container walker, content equality modulo
 //! derived offsets, byte-identical rewrite, same-version conversion identity.
+//!
+//! Spaces: m2, m2conv, seed, share (shared key-frame arrays), skin, anim in both tiers; the
+//! thorough tier adds m2many (17 / 300 / 65537 elements), m2chain and seedchain (A → B → C
+//! conversion chains), edit (parsed seed + API-edited static sections) and odd (emitter
+//! sub-arrays, ranges without keys) and widens the axes of the others (see `c.rule`).
 use serde_json::{json, Map, Value};
 use std::io::Cursor;
 use vcore::*;
@@ -454,6 +459,73 @@ impl Space for ManySpace {
     }
     fn case_timeout(&self) -> u64 {
         120
+    }
+}
+
+// ------------------------------------------------------------------ space "m2flags" (thorough)
+
+/// Every single bit of the 32-bit model flags, the two bits that announce an optional trailing
+/// header field (0x8 texture combiner combos, 0x8000000 blend map overrides) together, and that
+/// pair combined with every other bit, on both baselines x 8 header numbers.
+struct FlagSpace {
+    flags: Vec<u32>,
+    versions: Vec<(&'static str, M2Version, u32)>,
+}
+impl FlagSpace {
+    fn new() -> Self {
+        let both = 0x8u32 | 0x800_0000;
+        let mut flags: Vec<u32> = (0..32).map(|b| 1u32 << b).collect();
+        flags.push(both);
+        flags.extend((0..32).map(|b| 1u32 << b).filter(|f| f & both == 0).map(|f| f | both));
+        flags.push(0xFFFF_FFFF);
+        let mut versions: Vec<(&'static str, M2Version, u32)> = gen::VERSIONS.iter().map(|(n, v)| (*n, *v, v.to_header_version())).collect();
+        versions.extend(gen::ALT_NUMBERS.iter().map(|(n, v, k)| (*n, *v, *k)));
+        FlagSpace { flags, versions }
+    }
+    fn radices(&self) -> [u64; 3] {
+        [self.versions.len() as u64, 2, self.flags.len() as u64]
+    }
+}
+impl Space for FlagSpace {
+    fn len(&self) -> u64 {
+        self.radices().iter().product()
+    }
+    fn describe(&self, i: u64) -> Value {
+        let d = vcore::gen::mixed_radix(i, &self.radices());
+        let v = self.versions[d[0] as usize];
+        json!({"space": "m2flags", "version": v.0, "header_number": v.2, "base": (["empty", "full"][d[1] as usize]), "flags": format!("{:#010x}", self.flags[d[2] as usize])})
+    }
+    fn run(&self, i: u64) -> CaseResult {
+        let d = vcore::gen::mixed_radix(i, &self.radices());
+        let (_, ver, vnum) = self.versions[d[0] as usize];
+        gen::set_float_rotation(0);
+        let mut lv: Vec<u8> = gen::SITES.iter().map(|s| if d[1] == 0 { 0 } else { s.full }).collect();
+        lv[gen::site_index("header_scalars")] = 2;
+        let mut r = CaseResult::new();
+        r.key = format!("m2flags/{:?}", d);
+        r.nontrivial = true;
+        let mut m = gen::build_numbered(ver, vnum, &lv);
+        m.header.flags = wow_m2::header::M2ModelFlags::from_bits_retain(self.flags[d[2] as usize]);
+        api_roundtrip(&mut r, &m, ver);
+        // and across versions (from the canonical header numbers): the flags survive every
+        // conversion, the file stays parsable
+        if r.viols.is_empty() && vnum == ver.to_header_version() {
+            for (tname, to) in gen::VERSIONS {
+                let mut t = CaseResult::new();
+                conv_case(&mut t, &m, ver, to, 0);
+                for v in t.viols {
+                    r.viol(v.symptom, format!("to {tname}: {}", v.detail));
+                }
+                r.count("conversions", 1);
+            }
+        }
+        if r.outcome.is_empty() {
+            r.outcome = "held".into();
+        }
+        if !r.viols.is_empty() {
+            r.outcome.push_str("viol");
+        }
+        r
     }
 }
 
@@ -941,6 +1013,7 @@ fn build(name: &str, _arg: &str, tier: Tier) -> Box<dyn Space> {
     match name {
         "m2" => Box::new(M2Space::new(tier.pick(2, 3), tier.pick(&[0][..], &[0, 4, 7][..]))),
         "m2many" => Box::new(ManySpace::new()),
+        "m2flags" => Box::new(FlagSpace::new()),
         "m2conv" => Box::new(ConvSpace { models: enum_models(tier.pick(1, 2)), rotations: tier.pick(vec![0], vec![0, 4]) }),
         "seed" => Box::new(SeedSpace::new(tier)),
         "share" => Box::new(share::ShareSpace::new(tier)),
@@ -1026,14 +1099,14 @@ fn main() {
         c.tier.pick("", " (counts and keys 0,1,2,3,9)"),
         c.tier.pick(
             "",
-            " Thorough only: m2many: one or two of 28 sites at 17 / 300 elements (4335-character name, 300 textures with embedded names) on both baselines, 16 small-record sites also at 65537 elements, x 8 header numbers; m2chain: every model within <= 2 deviations converted from -> via -> to over all 125 triples x 2 entry points x source {built, reparsed}: content representable in all three versions must survive and the result must be a write→parse→write fixed point; seedchain: sparse / dense / shared key-frame seeds (10 sections singly + all) converted over all 125 triples; edit: load-edit-save: a parsed key-frame seed (sparse, dense, dense+shared; all sections + embedded skin profiles) whose static sections are replaced through the object API by every <= 2-deviation static population x 8 header numbers, written, decoded independently (static fields against the object, key frames against the seed), parsed, written again; odd: emitter records with plain sub-arrays (ribbon texture/material index lists, particle geometry model name / tile coordinates) and animated values with ranges but no keys."
+            " Thorough only: m2flags: every single bit of the model flags, 0x8|0x8000000 (the two bits that announce an optional trailing header field) and that pair with every other bit, on both baselines x 8 header numbers, each also converted to all 5 versions; m2many: one or two of 28 sites at 17 / 300 elements (4335-character name, 300 textures with embedded names) on both baselines, 16 small-record sites also at 65537 elements, x 8 header numbers; m2chain: every model within <= 2 deviations converted from -> via -> to over all 125 triples x 2 entry points x source {built, reparsed}: content representable in all three versions must survive and the result must be a write→parse→write fixed point; seedchain: sparse / dense / shared key-frame seeds (10 sections singly + all) converted over all 125 triples; edit: load-edit-save: a parsed key-frame seed (sparse, dense, dense+shared; all sections + embedded skin profiles) whose static sections are replaced through the object API by every <= 2-deviation static population x 8 header numbers, written, decoded independently (static fields against the object, key frames against the seed), parsed, written again; odd: emitter records with plain sub-arrays (ribbon texture/material index lists, particle geometry model name / tile coordinates) and animated values with ranges but no keys."
         ),
     );
     c.assume("content equality is judged on the Debug rendering of the section vectors with every `offset:` value (recomputed by the writer) masked; NaN is not in the float pool (the parser documents that it replaces NaN pivots)");
     c.assume("object-API models follow the convention of parsed objects: texture file name count includes the NUL, a non-zero placeholder offset marks a named texture, vertex bone indices stay below the bone count, animation blocks of API-built records are empty (key frames enter only through parsed seeds)");
     c.assume("fields a version cannot store (bone name CRC < 260, camera id/flags < 264, ribbon slice/variation < 272, classic vs BC+ animation timing) are excluded from the comparison for that version / conversion pair");
     c.assume("seed files and the container walker follow the record layouts the property names (32/52-byte sequences, 108/112/88-byte bones, 28/20-byte animated values); /repo/docs describes a later layout for some records and is used for header order and M2Array semantics only");
-    let spaces: &[&str] = c.tier.pick(&["m2", "m2conv", "seed", "share", "skin", "anim"][..], &["m2", "m2many", "m2conv", "m2chain", "seed", "share", "seedchain", "edit", "odd", "skin", "anim"][..]);
+    let spaces: &[&str] = c.tier.pick(&["m2", "m2conv", "seed", "share", "skin", "anim"][..], &["m2", "m2many", "m2flags", "m2conv", "m2chain", "seed", "share", "seedchain", "edit", "odd", "skin", "anim"][..]);
     for s in spaces {
         c.run_space(s, "");
     }
@@ -1053,7 +1126,7 @@ fn main() {
             "thorough_axes".into(),
             json!({"seed_header_numbers": 8, "seed_records": [1, 2, 3, 5], "seed_keys": [0, 1, 2, 3, 8], "seed_max_subset": 4,
                    "share_header_numbers": 8, "share_records": [2, 3, 5], "share_keys": [1, 2, 3, 8], "share_section_choices": 21, "share_extents": 3,
-                   "m2many_counts": [17, 300, 65537], "m2many_sites": 28, "m2many_huge_sites": 16,
+                   "m2flags_flag_values": 64, "m2many_counts": [17, 300, 65537], "m2many_sites": 28, "m2many_huge_sites": 16,
                    "m2chain_triples": 125, "m2chain_entry_points": 2, "m2chain_source_states": 2, "m2chain_max_deviations": 2,
                    "seedchain_triples": 125, "seedchain_seed_kinds": chain::SEED_KINDS, "seedchain_section_choices": 11,
                    "edit_seed_kinds": 3, "edit_header_numbers": 8, "edit_static_max_deviations": 2,
